@@ -146,6 +146,8 @@ def lab(i, labeling, sel=False):
 def conc(v, labeling, sel=False):
     if v["t"] == 0:
         return lab(v["e"][0], labeling, sel)
+    if v["t"] == 2:      # a frozenset of labels (foreign keys only)
+        return frozenset(lab(i, labeling, sel) for i in v["e"])
     return tuple(lab(i, labeling, sel) for i in v["e"])
 
 
@@ -217,6 +219,7 @@ def site_of(obj):
 CLASSES = {1: ["Table", "ProbabilityTable", "StateTable", "TableDistribution"],
            2: ["Table", "ProbabilityTable", "StateActionTable", "TabularPolicy", "JointProbabilityTable", "TableDistribution"],
            3: ["Table", "ProbabilityTable", "StateActionNextStateTable", "JointProbabilityTable"]}
+MDP_ROOTS = {"StateTable", "StateActionTable", "StateActionNextStateTable", "TabularPolicy"}
 _JOINT = []
 
 
@@ -517,7 +520,7 @@ def kind_of(x):
     return "sub-table" if is_table(x) else "cell"
 
 
-def check_iface(ctx, fail, obj, doms, cells, labeling, where, root_last=None):
+def check_iface(ctx, fail, obj, doms, cells, labeling, where, root_last=None, policy=False):
     """keys / iteration / items / values / len walk the outermost domain in order; what items() / values() yield
     is what t[key] gives (same cells, same kind; rows of a probability table are distributions on every path)."""
     from msdm.core.table import ProbabilityTable
@@ -582,7 +585,8 @@ def check_iface(ctx, fail, obj, doms, cells, labeling, where, root_last=None):
                 if not flag[0]:
                     return
     # policy rows
-    if len(doms) == 2 and type(obj).__name__ == "TabularPolicy":
+    # (policy: the object is a tabular policy, or a tabular policy restricted to lists of its states / actions)
+    if len(doms) == 2 and (policy or type(obj).__name__ == "TabularPolicy"):
         from msdm.core.mdp.tables import StateActionIndexError
         for i, k in enumerate(exp_keys):
             st, row = call(lambda: obj.action_dist(k))
@@ -607,7 +611,10 @@ def judge_transition(ctx, table, state, tr, obj, root_names, objcls, labeling, c
     pysel = conc_sel(sel, labeling)
     shape = shape_of(tr)
     agreed = [True]
-    is_mdp = isinstance(obj, StateTable)
+    # the sub-table of an MDP table that keeps every field (outer-key lists, slices: only restricted / re-ordered)
+    # is that MDP table restricted to those keys, so the MDP clauses (index error, policy rows) bind on it whatever
+    # class the code rebuilt it with
+    is_mdp = isinstance(obj, StateTable) or (objcls in MDP_ROOTS and len(state["doms"]) == len(table["doms"]))
     viewcls = type(obj).__name__
     case = {"table": {"doms": table["doms"]}, "hist": state["hist"], "sel": sel, "cls": objcls,
             "labeling": labeling, "container": cname}
@@ -655,7 +662,8 @@ def judge_transition(ctx, table, state, tr, obj, root_names, objcls, labeling, c
                 if tr["row"] and isinstance(obj, ProbabilityTable):
                     check_dist(ctx, fail, r, tr["odoms"][0], tr["ocells"], labeling, "row")
                 if tr["_h"] % state["iface_mod"] == 0:
-                    check_iface(ctx, fail, r, tr["odoms"], tr["ocells"], labeling, "result", root_last=root_names[-1])
+                    check_iface(ctx, fail, r, tr["odoms"], tr["ocells"], labeling, "result", root_last=root_names[-1],
+                                policy=objcls == "TabularPolicy" and len(tr["odoms"]) == 2)
     # ------------------------------------------------ against the reference machine (DRIFT only)
     if agreed[0]:
         rdoms, rcells = (tr["odoms"], tr["ocells"]) if tr["same"] else (tr["rdoms"], tr["rcells"])
@@ -803,7 +811,8 @@ def judge_table(ctx, table, tid, states, combos, *, mutate=None, build_hook=None
                                   {"table": {"doms": table["doms"]}, "hist": _state["hist"], "sel": "view", "cls": cls,
                                    "labeling": labeling, "container": cname})
                 check_iface(ctx, sfail, obj, state["doms"], state["cells"], labeling,
-                            f"{type(obj).__name__} view (root {cls}, chain of {len(state['hist'])})", root_last=root_names[-1])
+                            f"{type(obj).__name__} view (root {cls}, chain of {len(state['hist'])})", root_last=root_names[-1],
+                            policy=cls == "TabularPolicy" and len(state["doms"]) == 2)
             if only_sel == "view":
                 continue
             for tr in state["trans"]:
